@@ -63,7 +63,10 @@ class Sched(object):
                 cands = sorted(n for n, tag in self.parked.items() if not (tag[0] == 'lockwait' and tag[1] == self.lock_epoch))
                 if not cands:
                     return 'DEADLOCK'
-                i = self.chooser(len(self.choices), len(cands))
+                if getattr(self.chooser, 'wants_names', False):
+                    i = self.chooser(len(self.choices), cands)
+                else:
+                    i = self.chooser(len(self.choices), len(cands))
                 i = max(0, min(i, len(cands) - 1))
                 self.choices.append((i, len(cands)))
                 self.running = cands[i]
